@@ -350,6 +350,27 @@ func runC15(ctx *core.Ctx) {
 					}
 				}
 			}
+			if !found {
+				// the error may reach its test merged with others ("err := step1(); if err == nil { err = Write() };
+				// if err != nil { exit }"): follow the paths from the Write call and ask, at every normal end of
+				// main, whether Write's error can still be non-nil
+				ex := &ssax.Explorer{G: mg}
+				found = true
+				for _, e := range ex.Run(ssax.PointAfter(c)) {
+					if e.Kind != ssax.ExitReturn || e.Nil == nil {
+						continue
+					}
+					if _, isPanic := e.Last.(*ssa.Panic); isPanic {
+						continue
+					}
+					if e.Nil(c) != ssax.True {
+						bad = "main can end normally (" + strings.Join(e.Trail, " > ") + ") with the Write error not known to be nil"
+					}
+				}
+				if ex.Overflow {
+					bad = "too many paths"
+				}
+			}
 			ctx.Check(found && bad == "", "X4", "txtar-x.main#exit", c.Pos(), "Write error leads to non-zero exit on every path %s", bad)
 		}
 	}
